@@ -108,11 +108,41 @@ class Net:
 
 
 def build_network(prog: Program, sym_type="SX", variant="merge", same_names=False, vsl=True) -> Net:
-    """N1(O1 mainstream) -L1-> N2(O2 ramp) -L2[vsl]-> N3(D1 congested);  N4(O3 ramp) -L3-> N2.
-    Nodes are inserted N1..N4, edges L1, L2, L3: the in-edge iteration order (L1, L3, L2)
-    differs from the out-edge order (L1, L2, L3)."""
+    """merge (default):
+         N1(O1 mainstream) -L1-> N2(O2 ramp) -L2[vsl]-> N3(D1 congested);  N4(O3 ramp) -L3-> N2.
+         Nodes are inserted N1..N4, edges L1, L2, L3: the in-edge iteration order (L1, L3, L2)
+         differs from the out-edge order (L1, L2, L3).
+       minimal:  N1(ideal origin) -L1[N=1]-> N2(ideal destination): no actions, no disturbances.
+       bifurcation: N1(O1 mainstream) -L1-> N2 -L2-> N3(D1), N2 -L3-> N4(D2 congested)."""
     w = CompileWorld(prog, sym_type)
     g, K = w.graph, w.consts
+    if variant == "minimal":
+        N = {k: w.node(k) for k in ("N1", "N2")}
+        L1 = w.link("L1", "Link", nseg=1)
+        O1 = w.origin("O1", "Origin")
+        D1 = w.dest("D1", "Destination")
+        g.add_node(N["N1"], **{K["ORIGINENTRY"]: O1})
+        g.add_node(N["N2"], **{K["DESTINATIONENTRY"]: D1})
+        g.add_edge(N["N1"], N["N2"], **{K["LINKENTRY"]: L1})
+        return Net(w, [L1], [O1], [D1], N)
+    if variant == "bifurcation":
+        N = {k: w.node(k) for k in ("N1", "N2", "N3", "N4")}
+        L1 = w.link("L1", "Link", nseg=2)
+        L2 = w.link("L2", "LinkWithVsl" if vsl else "Link", nseg=2)
+        w.env.n1["L2.vsl"] = 1
+        w.vsl_len["vsl"] = 1
+        L3 = w.link("L3", "Link", nseg=3)
+        O1 = w.origin("O1", "MainstreamOrigin")
+        D1 = w.dest("D1", "Destination")
+        D2 = w.dest("D2", "CongestedDestination")
+        g.add_node(N["N1"], **{K["ORIGINENTRY"]: O1})
+        g.add_node(N["N2"])
+        g.add_node(N["N3"], **{K["DESTINATIONENTRY"]: D1})
+        g.add_node(N["N4"], **{K["DESTINATIONENTRY"]: D2})
+        g.add_edge(N["N1"], N["N2"], **{K["LINKENTRY"]: L1})
+        g.add_edge(N["N2"], N["N3"], **{K["LINKENTRY"]: L2})
+        g.add_edge(N["N2"], N["N4"], **{K["LINKENTRY"]: L3})
+        return Net(w, [L1, L2, L3], [O1], [D1, D2], N)
     N = {k: w.node(k) for k in ("N1", "N2", "N3", "N4")}
     L1 = w.link("L1", "Link", nseg=2)
     L2 = w.link("L2", "LinkWithVsl" if vsl else "Link", nseg=3)
@@ -152,14 +182,17 @@ def set_opaque_states(net: Net, clamp_init=False):
         if l.cls == LINKVSL:
             l.attrs["actions"] = {"v_ctrl": TV(E.V("v_ctrl", l.ident + ".vsl"), 1, False)}
     for o in net.origins:
+        cls = o.cls.split(":")[1]
+        if cls == "Origin":
+            continue
         o.attrs["states"] = {"w": sym("w", o, False)}
         o.attrs["next_states"] = {"w": TV(E.S(f"{o.ident}.w+"), 1)}
-        cls = o.cls.split(":")[1]
         act = {"MainstreamOrigin": "v_ctrl", "MeteredOnRamp": "r", "SimplifiedMeteredOnRamp": "q"}[cls]
         o.attrs["actions"] = {act: sym(act, o, False)}
         o.attrs["disturbances"] = {"d": sym("d", o, False)}
     for d in net.dests:
-        d.attrs["disturbances"] = {"d": sym("d", d, False)}
+        if d.cls.split(":")[1] == "CongestedDestination":
+            d.attrs["disturbances"] = {"d": sym("d", d, False)}
     for l in net.links:
         for k in list(w.env.n1):
             pass
